@@ -14,7 +14,8 @@ RULE = ("histories of 20-70 Vdata calls (VSattach new/r/w, VSfdefine, VSsetinter
         "characters and the predefined PX..NZ; record counts 1..40 with overwrites at the start / middle / end, appends, "
         "reads of every range with random field subsets and permutations in both buffer interlaces; file interlace "
         "NO_INTERLACE with whole-table transfers; a second Vdata written in between so that appends go through linked "
-        "blocks with block sizes 1..64 and 1..3 blocks per table; transfers of more than VDATA_BUFFER_MAX bytes; a "
+        "blocks with block sizes 1..64 and 1..3 blocks per table; transfers of more than VDATA_BUFFER_MAX bytes in two and "
+        "three passes, each followed by a multi-pass read of a proper subset / permutation of the fields; a "
         "several simultaneous attachments of one vdata (read+read with positions of their own, reads without a seek right "
         "after VSattach, interleaved positions, detach of one while the others go on; read-then-write and "
         "write-then-read attachments, which must be refused); a malformed stream (counts <= 0, bad interlace codes, negative seeks, reads past the end, unknown fields, calls "
@@ -97,7 +98,7 @@ def gen_schema(r, big=False, one=False):
     used = set()
     if big:
         # few large fields: record of 30000..65535 bytes
-        nf = 1 if one else r.choice([1, 2, 2, 3])
+        nf = one if one else r.choice([1, 2, 2, 3])
         total = r.randrange(60000, 65536) if one else r.randrange(30000, 65536)
         fields = []
         left = total
@@ -286,12 +287,14 @@ def gen_history(r, name, kind="std"):
         d.wl = False
 
     if kind == "big":
-        create(0, big=True, one=name.endswith("0"))
+        # b0: one field, three passes through the transfer buffer; b1: two fields, three passes; others: two passes
+        three = name[-1] in "01"
+        create(0, big=True, one=(1 if name.endswith("0") else 2 if name.endswith("1") else False))
         d = vds[0]
         need = 1000000 // d.rs + 1
-        # need = the chunk size VSwrite picks; more than that many records go through the buffer in several pieces
-        n1 = r.choice([need + 1, need + 1, need + r.randrange(1, 6), need, max(1, need - 1)])
-        if name.endswith("0"):      # at least one history per run needs three passes through the transfer buffer
+        # need = the chunk size VSwrite / VSread pick; more than that many records go through the buffer in several pieces
+        n1 = r.choice([need + 1, need + 1, need + r.randrange(1, 6), need + 2])
+        if three:
             n1 = 2 * need + r.randrange(1, 4)
         do_write(0, d, n=n1, pos=0)
         if r.random() < 0.5:
@@ -302,16 +305,32 @@ def gen_history(r, name, kind="std"):
         L.append("seek 0 0")
         L.append("read 0 %d %d" % (d.nrec, 0 if len(d.fields) > 1 and r.random() < 0.7 else r.choice([0, 1])))
         d.pos = d.nrec
-        if r.random() < 0.6:
+        # a second multi-pass read whose records are narrower in the caller's buffer than in the file (proper subset /
+        # permutation of the fields): the cursor into the caller's buffer and the cursor into the stream advance by
+        # different amounts per pass.  The transfer buffer left by the read above holds `need` records, so more than
+        # that many records are requested.
+        if r.random() < 0.5:
             detach(0, d)
             if r.random() < 0.5:
                 L.append("reopen")
             attach(0, d, "r")
-            sel = r.sample([f[0] for f in d.fields], r.randrange(1, len(d.fields) + 1))
-            L.append("setfields 0 %s" % ",".join(sel))
-            p = r.randrange(0, 3)
-            L.append("seek 0 %d" % p)
-            L.append("read 0 %d %d" % (d.nrec - p, r.choice([0, 1])))
+        names = [f[0] for f in d.fields]
+        forced = name.endswith("1")       # one history per run: proper subset, record-major caller buffer, from record 0
+        if len(names) > 1 and (forced or r.random() < 0.85):
+            sel = r.sample(names, r.randrange(1, len(names)))
+        else:
+            sel = r.sample(names, len(names))
+        L.append("setfields 0 %s" % ",".join(sel))
+        d.rl, d.wl = sel, sel == names
+        room = d.nrec - (need + 1)
+        p = r.choice([0, 0, min(1, room), min(r.randrange(0, 3), room)]) if room > 0 else 0
+        if forced:
+            p = 0
+        L.append("seek 0 %d" % p)
+        L.append("read 0 %d %d" % (d.nrec - p, 0 if forced else r.choice([0, 0, 0, 1])))
+        d.pos = d.nrec
+        if d.att:
+            detach(0, d)
         return L
 
     create(0)
@@ -677,7 +696,7 @@ def run(ctx):
     hists += [gen_history(r, "l%d" % i, "lb") for i in range(nh // 3)]
     hists += [gen_history(r, "m%d" % i, "mal") for i in range(nh // 4)]
     hists += [gen_multi(r, "a%d" % i) for i in range(nh // 3)]
-    hists += [gen_history(r, "b%d" % i, "big") for i in range(3 if quick else 30)]
+    hists += [gen_history(r, "b%d" % i, "big") for i in range(4 if quick else 30)]
     rc, R, S, flat, mcalls = run_histories(ctx, hists, "main", trace=True)
     opmix, fails_r, nviol, known_hists = {}, 0, 0, 0
     reads_full, reads_none, writes_full, writes_none, subset_reads, big_transfers, lb_hist = 0, 0, 0, 0, 0, 0, 0
